@@ -42,6 +42,29 @@ def numpy_param_forms(desc, rng, len1_capacity=False):
     return po
 
 
+TURNING_COUNTS = {"prob": 0.08}
+
+
+def turning_counts(desc, rng):
+    """Turn rates given as raw turning COUNTS read from an integer detector array (they need not be normalised): NumPy
+    scalars of a small integer type, whose sum over the links leaving a node does not fit that type.  Changes `desc`
+    (the rates are those counts) and returns the param_override."""
+    import numpy as np
+
+    from vf.refmodel import topology
+
+    ins, outs, org, dst = topology(desc)
+    po = {}
+    for n_ in desc["nodes"]:
+        if len(outs[n_]) >= 2:
+            dt, lo, hi = rng.choice(((np.uint8, 130, 250), (np.int8, 70, 120), (np.uint16, 33000, 60000), (np.int16, 17000, 30000)))
+            for l in outs[n_]:
+                c = rng.randint(lo, hi)
+                l["beta"] = float(c)
+                po[(l["id"], "beta")] = dt(c)
+    return po
+
+
 def make_net(M, g: G.NetGen, shape, rng, random_ops=True, numpy_params=False, len1_capacity=False):
     if shape == "allkinds":
         desc = g.all_kinds_network()
@@ -52,10 +75,37 @@ def make_net(M, g: G.NetGen, shape, rng, random_ops=True, numpy_params=False, le
         G.add_user_kinds(desc, rng)
     ops = D.random_ops(desc, rng) if (random_ops and rng.random() < 0.7) else None
     po = numpy_param_forms(desc, rng, len1_capacity) if (numpy_params and rng.random() < (0.4 if len1_capacity else 0.2)) else None
+    if rng.random() < TURNING_COUNTS["prob"]:
+        tc = turning_counts(desc, rng)
+        if tc:
+            po = {**(po or {}), **tc}
+            D.FORM_STATS["networks with small-integer turning counts as turn rates"] = D.FORM_STATS.get("networks with small-integer turning counts as turn rates", 0) + 1
     built = D.build(M, desc, ops, param_override=po)
     built.numpy_valued_parameters = bool(po)
     built.caller_arrays = po or {}  # the caller keeps the arrays it handed over
     return shp, desc, built
+
+
+def relocate_signs_inplace(built, desc, rng):
+    """A sign is relocated / the sign list reversed / the compliance factor changed on the live object: the list of limited
+    segments is a plain public attribute, edited IN PLACE (same list object, same length); mirrored in `desc`."""
+    done = False
+    for l in desc["links"]:
+        el = built.links[l["id"]]
+        if l.get("vsl") and isinstance(getattr(el, "vsl", None), list) and len(el.vsl) == len(l["vsl"]):
+            free = [i for i in range(l["N"]) if i not in [j % l["N"] for j in el.vsl]]
+            how = rng.choice(("move", "move", "reverse", "alpha")) if free else rng.choice(("reverse", "alpha"))
+            if how == "move":
+                el.vsl[rng.randrange(len(el.vsl))] = rng.choice(free)
+            elif how == "reverse":
+                el.vsl.reverse()
+            else:
+                l["alpha"] = rng.choice((0.0, 0.05, 0.2, -0.1))
+                el.alpha = l["alpha"]
+            l["vsl"] = list(el.vsl)
+            l["vsl_live_order"] = True
+            done = True
+    return done
 
 
 def mutate_params_inplace(built, desc, rng, prefer=None):
@@ -65,9 +115,13 @@ def mutate_params_inplace(built, desc, rng, prefer=None):
     from vf.refmodel import topology
 
     ins, outs, org, dst = topology(desc)
-    kind = rng.choice(("scale_turnrates", "change_turnrates", "lanes", "length", "fd", "capacity", "flow_equation", "flow_equation"))
+    kind = rng.choice(("scale_turnrates", "change_turnrates", "lanes", "length", "fd", "capacity", "flow_equation", "flow_equation", "signs", "signs"))
     if prefer and rng.random() < 0.6:
         kind = rng.choice(prefer)
+    if kind == "signs":
+        if relocate_signs_inplace(built, desc, rng):
+            return "signs relocated in place"
+        kind = "fd"
     if kind == "flow_equation" and not any(o["kind"] in ("ramp", "simple") for o in desc["origins"]):
         kind = "fd"
     if kind == "scale_turnrates":
@@ -654,6 +708,127 @@ def overlapping_steps(M, rec, rng, n_pairs, before_case=None):
             bA.net.step(init_conditions=drive.np_init(bA, vA, "vec1"), engine=NE(), **drive.step_pars(pA))
         except Exception:
             pass
+
+
+def shared_object_networks(M, rec, rng, n_pairs, before_case=None, engine_kinds=("numpy",), symvals=None, after_step=None):
+    """A whole network and a corridor sub-model of it made of THE SAME Node / Link / Origin / Destination objects (decentralised
+    control: the corridor controller has its own small network), both fully built first and then stepped alternately, with
+    no construction call in between.  At the junctions where the corridor leaves out a branch the two networks disagree on a
+    node's leaving / entering links: whatever is remembered per node object would answer for the wrong network."""
+    import copy
+
+    from vf.refmodel import topology
+
+    NE, CE = drive.engines(M)
+    g = G.NetGen(rng)
+    for it in range(n_pairs):
+        _s, dA = g.network(("bifurcation", "crossing", "random", "merge")[it % 4])
+        dA = copy.deepcopy(dA)
+        ins, outs, org, dst = topology(dA)
+        starts = [o for o in dA["origins"] if not ins[o["node"]]]
+        if not starts:
+            continue
+        node = rng.choice(starts)["node"]
+        seen, path = {node}, []
+        while outs[node]:
+            l_ = rng.choice(outs[node])
+            path.append(l_)
+            node = l_["down"]
+            if node in seen:
+                path = None
+                break
+            seen.add(node)
+        if not path or node not in dst:
+            continue
+        on_path = [path[0]["up"]] + [l_["down"] for l_ in path]
+        differs = any(len(outs[n_]) > 1 for n_ in on_path) or any(len(ins[n_]) > 1 for n_ in on_path)
+        if not differs:
+            continue
+        dB = {"nodes": list(on_path), "links": [copy.deepcopy(l_) for l_ in path],
+              "origins": [copy.deepcopy(o) for o in dA["origins"] if o["node"] in on_path and (o["node"] == on_path[0] or o["kind"] in ("ramp", "simple"))],
+              "dests": [copy.deepcopy(dst[node])]}
+        bA = D.build(M, dA, D.random_ops(dA, rng))
+        reuse = dict(bA.nodes)
+        reuse.update(bA.links)
+        reuse.update(bA.origins)
+        reuse.update(bA.dests)
+        try:
+            bB = D.build(M, dB, D.random_ops(dB, rng), reuse=reuse)
+        except Exception:
+            rec.count("corridor_networks_failed_to_build")
+            continue
+        rec.count("pairs_of_networks_sharing_their_objects")
+        # twins of fresh objects, built now: nothing is constructed any more once the stepping has begun
+        tA, tB = (D.build(M, dA), D.build(M, dB)) if after_step else (None, None)
+        pA, pB = g.pars(), g.pars()
+        order = [rng.choice(("A", "B")) for _ in range(2)] + ["A", "B", "A"]
+        for who in order:
+            built, desc, pars = (bA, dA, pA) if who == "A" else (bB, dB, pB)
+            _, vals = g.values(desc, "interior", allow_inf=False)
+            kind = rng.choice(engine_kinds)
+            case = {"desc": desc, "vals": vals, "pars": pars, "opts": {}, "engine": kind, "network": "whole" if who == "A" else "corridor of the same objects"}
+            if before_case:
+                before_case(case, built)
+            try:
+                if kind == "numpy":
+                    built.net.step(init_conditions=drive.np_init(built, vals, "vec1"), engine=NE(), **drive.step_pars(pars))
+                else:
+                    symvals.clear()
+                    ic, _syms = drive.sym_init(M, built, kind, symvals, vals)
+                    built.net.step(init_conditions=ic, engine=CE(kind), **drive.step_pars(pars))
+                rec.count("steps_of_networks_sharing_their_objects")
+            except Exception:
+                rec.count("steps_of_networks_sharing_their_objects_raised")
+                continue
+            if after_step:
+                after_step(case, built, tA if who == "A" else tB)
+
+
+def late_registered_ramp_kinds(M, rec, rng, n_nets, before_case=None, engine_kinds=("numpy",), symvals=None):
+    """A user-defined feeder kind (prescribed flow, nothing inherited from the ramp classes) sits at an interior node; the
+    network is stepped; only THEN the kind is declared a ramp (`MeteredOnRamp.register`, the natural reaction to what
+    `is_valid` says) and the network is stepped again: from then on the merging term applies.  What a kind is, is asked at
+    each step (fresh class per case: a registration cannot be undone)."""
+    from vf import userkinds as UK
+
+    NE, CE = drive.engines(M)
+    g = G.NetGen(rng)
+    for it in range(n_nets):
+        # (a ramp's flow is asked for as get_flow(net, T, engine) by the links and with keywords by the nodes)
+        Feeder = type("Feeder", (UK.BoundaryOrigin,), {"get_flow": lambda self, net, T=None, engine=None, **kw: self.flow})
+        lam = rng.choice((2, 3))
+
+        def lk(i, up, dn):
+            return {"id": f"L{i}", "name": f"L{i}", "up": up, "down": dn, "N": rng.choice((1, 2, 3)), "lam": lam, "L": round(rng.uniform(0.6, 1.4), 2),
+                    "rho_max": 180.0, "rho_crit": round(rng.uniform(28, 38), 1), "v_free": round(rng.uniform(95, 120), 1),
+                    "a": round(rng.uniform(1.4, 2.6), 2), "beta": 1.0, "vsl": None, "alpha": None}
+
+        qf = round(rng.uniform(300.0, 1500.0), 1)
+        desc = {"nodes": ["n0", "n1", "n2"], "links": [lk(0, "n0", "n1"), lk(1, "n1", "n2")],
+                "origins": [{"id": "O0", "name": "O0", "node": "n0", "kind": rng.choice(("main", "ideal")), "C": None, "eq": None},
+                            {"id": "O1", "name": "feeder", "node": "n1", "kind": "ideal", "C": None, "eq": None, "user": True, "user_q": qf, "user_v": None}],
+                "dests": [{"id": "D0", "name": "D0", "node": "n2", "kind": rng.choice(("free", "cong"))}]}
+        built = D.build(M, desc, reuse={"O1": Feeder(flow=qf, name="feeder")})
+        pars = g.pars(delta=True)
+        kind = engine_kinds[it % len(engine_kinds)]
+        eng = NE() if kind == "numpy" else CE(kind)
+        for phase in ("before the registration", "after the registration", "after the registration"):
+            _, vals = g.values(desc, "interior", allow_inf=False)
+            case = {"desc": desc, "vals": vals, "pars": pars, "opts": {}, "engine": kind, "feeder_kind": phase}
+            if before_case:
+                before_case(case, built)
+            try:
+                if kind == "numpy":
+                    built.net.step(init_conditions=drive.np_init(built, vals, "vec1"), engine=eng, **drive.step_pars(pars))
+                else:
+                    symvals.clear()
+                    ic, _syms = drive.sym_init(M, built, kind, symvals, vals)
+                    built.net.step(init_conditions=ic, engine=eng, **drive.step_pars(pars))
+                rec.count("steps_with_a_kind_registered_late:" + phase)
+            except Exception:
+                rec.count("steps_with_a_kind_registered_late_raised")
+            if phase.startswith("before"):
+                M.MeteredOnRamp.register(Feeder)
 
 
 def closed_loop(M, rec, rng, n_sims, steps, on_step=None, before_case=None):
